@@ -374,6 +374,76 @@ impl Part for DecodeLoop {
             steps += 1;
             ensure!(steps <= c.buf.len() / 4 + 1, "c04:no-progress", "{}: {steps} decode steps over a {}-byte buffer", mode_name(&mode), c.buf.len());
         }
+        // the same bytes arriving piecewise at one codec (as a connection's receive loop sees them) must give the same
+        // sequence of results as frame-by-frame decoding with a fresh codec: what was buffered when must not matter
+        let reference = {
+            let mut out: Vec<String> = vec![];
+            let mut rest = BytesMut::from(&c.buf[..]);
+            loop {
+                let r = guard(|| Codec::new(mode.clone()).decode(&mut rest)).map_err(|p| Fail::new("c04:decoder-panic", p))?;
+                match r {
+                    Ok(None) => break,
+                    Err(insim::Error::IO { .. }) => {
+                        out.push("framing".into());
+                        break;
+                    },
+                    Ok(Some(p)) => out.push(format!("{p:?}")),
+                    Err(_) => out.push("decode error".into()),
+                }
+            }
+            (out, rest.len())
+        };
+        for pattern in [1usize, 3, 5, 7] {
+            let codec = Codec::new(mode.clone());
+            let mut b = BytesMut::new();
+            let mut out: Vec<String> = vec![];
+            let mut fed = 0usize;
+            let mut k = 0usize;
+            let mut dead = false;
+            while fed < c.buf.len() && !dead {
+                // segment sizes: 1,1,1.. / 3,3,.. / 5,3,5,3.. / 7,1,7,1..
+                let seg = match pattern {
+                    1 => 1,
+                    3 => 3,
+                    5 => [5, 3][k % 2],
+                    _ => [7, 1][k % 2],
+                };
+                k += 1;
+                let end = (fed + seg).min(c.buf.len());
+                b.extend_from_slice(&c.buf[fed..end]);
+                fed = end;
+                loop {
+                    let r = guard(|| codec.decode(&mut b)).map_err(|p| Fail::new("c04:decoder-panic", format!("{}: piecewise ({pattern}): {p}", mode_name(&mode))))?;
+                    match r {
+                        Ok(None) => break,
+                        Err(insim::Error::IO { .. }) => {
+                            out.push("framing".into());
+                            dead = true;
+                            break;
+                        },
+                        Ok(Some(p)) => out.push(format!("{p:?}")),
+                        Err(_) => out.push("decode error".into()),
+                    }
+                }
+            }
+            // after a framing error the connection is dead: whatever was not yet fed does not matter
+            let agree = if dead { reference.0.len() >= out.len() && reference.0[..out.len()] == out[..] && reference.0.get(out.len() - 1).map(|s| s == "framing").unwrap_or(false) } else { out == reference.0 && b.len() == reference.1 };
+            if !agree {
+                let i = (0..out.len().max(reference.0.len())).find(|i| out.get(*i) != reference.0.get(*i)).unwrap_or(0);
+                let cut = |s: Option<&String>| s.map(|s| s.chars().take(90).collect::<String>()).unwrap_or("<nothing>".into());
+                fail!(
+                    "c04:result-depends-on-arrival-pattern",
+                    "{}: bytes arriving in pieces of {pattern}: result #{i} is {} (frame by frame with a fresh codec: {}); {} vs {} results, {} vs {} bytes left",
+                    mode_name(&mode),
+                    cut(out.get(i)),
+                    cut(reference.0.get(i)),
+                    out.len(),
+                    reference.0.len(),
+                    b.len(),
+                    reference.1
+                );
+            }
+        }
         if steps >= 2 {
             ev.nontrivial(&(c.compressed, &c.buf));
         }
@@ -539,7 +609,7 @@ pub fn run(run: &mut Run) {
         Mode::decode_length for every size byte x buffered length 0..=1024 x 2 modes (complete); random buffers with biased size bytes; all 256x256 (size,type) pairs x 3 tails x 2 modes (complete); bit flips / substitutions / \
         truncations / extensions / splices of reference frames of all 73 kinds; every byte value in every enum-typed, count and identifier \
         position of every kind (complete); the receive loop (decode until 'need more') over concatenated mutated frames must consume >= 4 \
-        bytes per step. Non-trivial = a complete announced frame was buffered (result is a packet or a decode error)."
+        bytes per step, and the same bytes arriving in pieces of 1 / 3 / 5,3 / 7,1 at one codec must give the same results as frame-by-frame decoding with fresh codecs. Non-trivial = a complete announced frame was buffered (result is a packet or a decode error)."
         .into();
     run.assumptions = vec![
         "a framing error is an insim::Error::IO; every other error is a decode error".into(),
